@@ -20,7 +20,6 @@ use serde_json::json;
 use std::collections::BTreeMap;
 
 const REQ18: &str = "Common.Base Meta.Model_Flags Table.Model_Manifest Table.Model_StableIds";
-const CLASS_RANGES: &str = "rowid_index_overlapping_ranges";
 const CLASS_FLAG: &str = "stable_flag_dropped_on_empty_table";
 const CLASS_CACHE: &str = "rowid_sequence_cache_keyed_by_fragment_id";
 
@@ -214,9 +213,9 @@ async fn check_step(ctx: &mut Ctx, t: &mut Tbl, tr: &mut Track, s: &mut S18, sin
     // ---- model: live rows in address order
     tr.in_ranges_class = in_ranges_class(&rows);
     if tr.in_ranges_class {
-        sink.count("c18:version-in-class:rowid_index_overlapping_ranges");
+        sink.count("c18:version:row-ids-non-monotone");
     } else {
-        sink.count("c18:version-outside-class");
+        sink.count("c18:version:row-ids-monotone");
     }
     if let Some(e) = &last {
         // sanity test of the check itself (`--plant`): record one wrong row id in the first scan
@@ -250,8 +249,7 @@ async fn check_step(ctx: &mut Ctx, t: &mut Tbl, tr: &mut Track, s: &mut S18, sin
                 }
             }
             Err((p, e)) => {
-                let class = if p && e.contains("Wrong range") && tr.in_ranges_class { Some(CLASS_RANGES) } else { None };
-                sink.oracle_fail(class, &format!("take_rows on live row ids {}: {}", if p { "panicked" } else { "failed" }, e.chars().take(200).collect::<String>()), json!({"history": t.hist, "version": latest, "probes": probes}));
+                sink.oracle_fail(None, &format!("take_rows on live row ids {}: {}", if p { "panicked" } else { "failed" }, e.chars().take(200).collect::<String>()), json!({"history": t.hist, "version": latest, "probes": probes}));
             }
         }
     }
@@ -295,8 +293,8 @@ pub fn run(args: &Args) -> i32 {
                     t.hist.push(format!("   -> {}: {}", if p { "PANIC" } else { "error" }, e.chars().take(160).collect::<String>()));
                     if p {
                         // an operation that resolves row ids internally hit the index assertion
-                        let class = if e.contains("Wrong range") && was_in_class { Some(CLASS_RANGES) } else { None };
-                        sink.oracle_fail(class, &format!("`{}` panicked: {}", STEP_NAMES[which], e.chars().take(200).collect::<String>()), json!({"history": t.hist}));
+                        let _ = was_in_class;
+                        sink.oracle_fail(None, &format!("`{}` panicked: {}", STEP_NAMES[which], e.chars().take(200).collect::<String>()), json!({"history": t.hist}));
                     }
                     let mut d = t.ds.clone();
                     if d.checkout_latest().await.is_ok() {
@@ -322,7 +320,7 @@ pub fn run(args: &Args) -> i32 {
             sink.add(st);
         }
     }
-    sink.notes.push(format!("e2e: {n_hist} histories with stable row ids, every committed version exported; corpus: F18 input, flag drop on an empty table"));
+    sink.notes.push(format!("e2e: {n_hist} histories with stable row ids, every committed version exported; corpus: F18 input (regression), flag drop on an empty table"));
     sink.finish();
     0
 }
